@@ -230,7 +230,11 @@ theorem runActs_of_checks {as : List Act} {fs : FS} (h : ChecksOK as fs) :
     cases a with
     | ev e => have := ih h; simp only [runActs, eventsOf]; exact ⟨this.1, by rw [this.2]⟩
     | exist p => have := ih h.2; simp only [runActs, eventsOf, h.1, if_true]; exact this
-    | load p => have := ih h.2; simp only [runActs, eventsOf, h.1, if_true]; exact this
+    | load p =>
+      have := ih h.2
+      have hl : fs.loadable p = true := by
+        have h1 := h.1; simp only [FS.good, beq_iff_eq] at h1; simp [FS.loadable, h1]
+      simp only [runActs, eventsOf, hl, if_true]; exact this
     | rm p => have := ih h.2; simp only [runActs, eventsOf, h.1, if_true]; exact ⟨this.1, by rw [this.2]⟩
 
 theorem eventsOf_append (a b : List Act) : eventsOf (a ++ b) = eventsOf a ++ eventsOf b := by
